@@ -1,17 +1,23 @@
 #!/usr/bin/env python3
-"""apply a seeded change to /repo, run the given checks (quick tier), undo the change.  usage: seedtest.py <patch.diff> C19 C03 ..."""
-import subprocess, sys, os, time, json
+"""run checks against a seeded change WITHOUT touching /repo: scratch worktree of /repo HEAD + patch, checks run with VERIF_REPO pointing at it
+(equivalent to `git -C /repo apply`, run, `git -C /repo checkout -- .`, but safe while other work reads /repo).
+usage: seedtest.py <patch.diff> C19 C03 ..."""
+import subprocess, sys, os, time, json, shutil, hashlib
 patch = os.path.abspath(sys.argv[1]); props = sys.argv[2:]
 tier = os.environ.get('SEED_TIER', 'quick')
-assert subprocess.run(['git', '-C', '/repo', 'status', '--porcelain', '--untracked-files=no'], capture_output=True, text=True).stdout.strip() == '', '/repo has local edits'
-subprocess.run(['git', '-C', '/repo', 'apply', patch], check=True)
+W = '/tmp/seedrepo_' + hashlib.md5(patch.encode()).hexdigest()[:8]
+subprocess.run(['git', '-C', '/repo', 'worktree', 'remove', '--force', W], capture_output=True); shutil.rmtree(W, ignore_errors=True)
+subprocess.run(['git', '-C', '/repo', 'worktree', 'add', '-q', '--detach', W, 'HEAD'], check=True)
 res = {}
 try:
-    procs = {p: subprocess.Popen([sys.executable, '/verif/check.py', p, '--tier', tier], cwd='/verif', stdout=subprocess.PIPE, stderr=subprocess.STDOUT, text=True) for p in props}
+    subprocess.run(['git', '-C', W, 'apply', patch], check=True)
+    os.makedirs('/verif/build/seed_evidence', exist_ok=True)
+    env = dict(os.environ, VERIF_REPO=W, VERIF_EVIDENCE_DIR='/verif/build/seed_evidence')
+    procs = {p: subprocess.Popen([sys.executable, '/verif/check.py', p, '--tier', tier], cwd='/verif', stdout=subprocess.PIPE, stderr=subprocess.STDOUT, text=True, env=env) for p in props}
     for p, pr in procs.items():
         out, _ = pr.communicate()
-        lines = [l for l in out.splitlines() if l.startswith(('VIOLATION', 'KNOWN', 'INCONCLUSIVE', p)) or 'assertion=' in l]
+        lines = [l[:400] for l in out.splitlines() if l.startswith(('VIOLATION', 'KNOWN', 'INCONCLUSIVE', p)) or 'assertion=' in l]
         res[p] = {'rc': pr.returncode, 'lines': lines[-8:]}
 finally:
-    subprocess.run(['git', '-C', '/repo', 'checkout', '--', '.'], check=True)
+    subprocess.run(['git', '-C', '/repo', 'worktree', 'remove', '--force', W], capture_output=True); shutil.rmtree(W, ignore_errors=True)
 print(json.dumps(res, indent=1))
